@@ -1,5 +1,5 @@
 import sys; sys.path.insert(0,"/verif/engine")
-import sys, irbuild, explore, time, shutil, json
+import sys, irbuild, forkexplore as explore, time, shutil, json
 sys.path.insert(0,'/verif/engine')
 import check
 harness, units, defs, tl = sys.argv[1], sys.argv[2].split(','), sys.argv[3].split(',') if sys.argv[3] else [], float(sys.argv[4])
